@@ -4,11 +4,34 @@
 #pragma once
 #include <bits/stdc++.h>
 #include "sched.h"
+namespace verif {
+// std::counting_semaphore / std::binary_semaphore on top of the scheduler-aware mutex and condition variable: acquire and
+// release are scheduling points, and WHICH blocked acquirer gets a released permit is a scheduling choice (notify_one's pick)
+template<std::ptrdiff_t Max = PTRDIFF_MAX> class Semaphore {
+    Mutex m;
+    CondVar cv;
+    std::ptrdiff_t c;
+public:
+    explicit Semaphore(std::ptrdiff_t desired) : c(desired) {}
+    Semaphore(const Semaphore &) = delete;
+    static constexpr std::ptrdiff_t max() noexcept { return Max; }
+    void release(std::ptrdiff_t n = 1) {
+        { std::lock_guard<Mutex> l(m); c += n; }
+        for (std::ptrdiff_t i = 0; i < n; ++i) cv.notify_one();
+    }
+    void acquire() { std::unique_lock<Mutex> l(m); cv.wait(l, [&] { return c > 0; }); --c; }
+    bool try_acquire() { std::lock_guard<Mutex> l(m); if (c > 0) { --c; return true; } return false; }
+};
+}
 namespace std {
 using vmutex = ::verif::Mutex;
 using vcondition_variable = ::verif::CondVar;
 using vthread = ::verif::Thread;
+template<std::ptrdiff_t Max = PTRDIFF_MAX> using vcounting_semaphore = ::verif::Semaphore<Max>;
+using vbinary_semaphore = ::verif::Semaphore<1>;
 }
+#define counting_semaphore vcounting_semaphore
+#define binary_semaphore vbinary_semaphore
 #define mutex vmutex
 #define condition_variable vcondition_variable
 #define thread vthread
